@@ -58,7 +58,7 @@ CLAIMS['C08'] = dict(cat='fault_enumeration', ref='DESIGN.md §4 C08',
     text='For every generated structural case (tree x key x insert/remove) the allocation-failure position is a symbolic variable (0..3) and CBMC decides each resulting path: exception type, '
          'entries/values/statistics/live allocations unchanged after the failure, normal result of the retry; over-long values raise length_error with no effect.',
     note='keys are generated concrete structural cases (a fully symbolic key together with a symbolic fault position exhausts memory, measured); one fault per operation; db instantiation; '
-         'QSBR-side operations (resume/thread start/deferred request) are not covered here. Counterexamples replay on the g++ build with interposed allocators.',
+         'QSBR side: deferred-deallocation request and thread start (quick), request with a queued request and resume (thorough), path-wise. Counterexamples replay on the g++ build with interposed allocators.',
     tech='bounded symbolic execution of the real code (clang IR -> C -> CBMC), path-wise (--paths lifo) with the fault index symbolic')
 CLAIMS['C10'] = dict(cat='model_checking', ref='DESIGN.md §4 C10',
     text='SAT decides, for all 2^64 keys of one insert/remove on catalogue trees, that leaf count, inner nodes per size class and memory use equal a reference computed from the key set alone, '
